@@ -264,10 +264,10 @@ def hyp_param(ctx, n):
 def tasks(tier, seed):
     full = tier == 'thorough'
     t = []
-    for i in range(8 if not full else 16):
-        t.append(('hyp_ipm', dict(n=40 if not full else 400)))
+    for i in range(12 if not full else 16):
+        t.append(('hyp_ipm', dict(n=60 if not full else 400)))
     for i in range(4 if not full else 8):
-        t.append(('hyp_param', dict(n=60 if not full else 600)))
+        t.append(('hyp_param', dict(n=120 if not full else 600)))
     return t
 
 
